@@ -107,6 +107,11 @@ func (r *apiRequest) finishExecution() {
 	// the field contexts of the previous event.
 	r.batches = nil
 	r.chainedAsyncResolutions = nil
+	// A goroutine of this execution that is still inside its function must not hand its result
+	// to the idle handler of the next execution (its select would choose at random between the
+	// closed executionDone and a receiver that is waiting for the next execution's results): the
+	// next execution gets a channel of its own, nothing receives from the old one any more.
+	r.asyncResolutions = nil
 }
 
 // awaitPromise waits for a promise that is fulfilled by the idle handler. It gives up (ok == false)
